@@ -188,6 +188,27 @@ def c17_doc(acc, text, feats, label, rng, steps):
                            "environment": got[k] if k < len(got) else None,
                            "file": want[k] if k < len(want) else None}, wit)
         acc.count("action_lists_compared_with_file")
+        # ... also through the parameterised action space
+        from ..paramspace import decode_vector
+        penv = nasim.load(path, flat_actions=False)
+        nvec = [int(x) for x in penv.action_space.nvec]
+        for _ in range(60):
+            v = [rng.randrange(m) for m in nvec]
+            try:
+                d, _fl = decode_vector(ref, v)
+                got_v = action_signature(penv.action_space.get_action(v))
+            except Exception as e:      # noqa
+                acc.violation("actions_differ_from_file",
+                              "actions_differ_from_file:vector_raised",
+                              {"vector": v, "error": str(e)[:100]}, wit)
+                break
+            if got_v != desc_signature(d):
+                acc.violation("actions_differ_from_file",
+                              "actions_differ_from_file:vector",
+                              {"vector": v, "environment": got_v,
+                               "file": desc_signature(d)}, wit)
+                break
+        acc.count("vectors_compared_with_file", 60)
         sub = Acc("C17")
         m1, m2 = C01(sub), C02(sub)
         subj.reset()
